@@ -26,6 +26,18 @@ func c13Scenario(name string, prefix []string) *Scenario {
 		{Name: "create(A->R1,600nund@10)", Dt: ms, Txs: tx1(model.Msg{Kind: model.StrCreate, From: "A", To: "R1", Den: mc.Nund, Amt: "600", Rate: 10})},
 		decide("S1", 1, 2),
 		{Name: "wait(30s)", Dt: 30 * time.Second},
+		// entitlement that moves: a whitelisting, a removal, a hand-over of the signer role by governance
+		{Name: "whitelist(S1,+A)", Dt: ms, Txs: tx1(model.Msg{Kind: model.EntWhitelist, From: "S1", To: "A", N: 1})},
+		{Name: "whitelist(S1,-P1)", Dt: ms, Txs: tx1(model.Msg{Kind: model.EntWhitelist, From: "S1", To: "P1", N: 2})},
+		{Name: "gov(ent:signers=O;min=1)", Gov: &GovSpec{Kind: model.EntParams, Params: model.EntParamsRaw{Denom: mc.Nund, Signers: "O", Min: 1, Limit: 100}}},
+		// registrations and records on the identifiers they are about to get, rolled back with their transaction
+		{Name: "rolled-back-registrations(O)", Dt: ms, Txs: func(m *model.State) []model.Tx {
+			return []model.Tx{{Msgs: []model.Msg{
+				{Kind: model.WrkReg, From: "O", S: []string{"m-rb", "n", "0xg", "t"}}, {Kind: model.WrkRec, From: "O", ID: m.Wrk.NextID, H: 1, S: []string{"0xrb", "", "", "", ""}},
+				{Kind: model.BcnReg, From: "O", S: []string{"bm-rb", "bn"}}, {Kind: model.BcnRec, From: "O", ID: m.Bcn.NextID, S: []string{"0xrb"}, T: 1_600_000_000},
+				{Kind: model.StrCancel, From: "O", To: "W1"}}, // no such stream: the whole transaction fails
+				Fee: fee(m.Wrk.P.FeeReg + m.Wrk.P.FeeRec + m.Bcn.P.FeeReg + m.Bcn.P.FeeRec)}}
+		}},
 	}
 	base := len(s.Actions)
 	accts := []string{"S1", "P1", "W1", "A", "R1", "O"}
@@ -125,12 +137,15 @@ func init() {
 		h1 := []string{"raise(P1,7)", "wreg(W1,chain-a)", "breg(W1,beacon-a)", "create(A->R1,600nund@10)"}
 		h2 := append(append([]string{}, h1...), "wrec(W1,#1,next)", "wait(30s)", "accept(S1,#1)", "wait(30s)", "wait(30s)", "wait(30s)")
 		h0 := []string{}
+		h3 := []string{"raise(P1,7)", "whitelist(S1,+A)", "whitelist(S1,-P1)", "gov(ent:signers=O;min=1)", "create(A->R1,600nund@10)"}
+		h4 := []string{"rolled-back-registrations(O)", "wreg(W1,chain-a)", "breg(W1,beacon-a)", "raise(P1,7)"}
 		opt := map[Tier]Options{
 			Quick:    {Depth: 1, Budget: 100 * time.Second, ReplayEvery: 16},
 			Thorough: {Depth: 2, Budget: 25 * time.Minute, ReplayEvery: 64, MaxStates: 400000},
 		}
 		return &Check{ID: "C13",
-			Runs: []Run{{S: c13Scenario("entitlement-h1", h1), Opt: opt}, {S: c13Scenario("entitlement-h2", h2), Opt: opt}, {S: c13Scenario("entitlement-empty", h0), Opt: opt}},
+			Runs: []Run{{S: c13Scenario("entitlement-h1", h1), Opt: opt}, {S: c13Scenario("entitlement-h2", h2), Opt: opt}, {S: c13Scenario("entitlement-empty", h0), Opt: opt},
+				{S: c13Scenario("entitlement-moved", h3), Opt: opt}, {S: c13Scenario("entitlement-after-rollback", h4), Opt: opt}},
 			// a message takes effect only for its entitled signer: anything the model rejects for lack of entitlement must be rejected,
 			// a wrong key must never be accepted, and a rejected attempt leaves stores and balances untouched
 			Owns:        ownsAny("tx.accept_unexpected:", "tx.nonatomic", "bal:"),
